@@ -54,6 +54,7 @@ def allEq (xs : List Nat) (v : Nat) : Bool := xs.all (· == v)
 
 def handle (l : Line) : Option Verdict :=
   match l.op with
+  | "par_life" => some .ok     -- handles with overlapping lifetimes: judged by the C-side predicate p_same_as_alone
   | "par_nested" => some .ok   -- the library inside the application's own parallel region: judged by the C-side predicate p_same_as_alone
   | "par_bad" => some .ok      -- a damaged column among intact ones: judged by the C-side predicate p_failure_reported_as_single
   | "par_read" => some <|
